@@ -236,6 +236,8 @@ def last_differs(lines, cfg, scratch):
         # one side died (abort): a difference unless both died at the same line
         return len(il) != len(ml)
     op = lines[-1].split()
+    if il[n - 1] == "bad-op" or ml[n - 1] == "bad-op":
+        return False  # a definition the failing line needs was removed: not a reproduction
     if cfg.compare_op:
         r = cfg.compare_op(op, il[n - 1], ml[n - 1])
         if r is not None:
